@@ -517,11 +517,30 @@ class _AdbIOManager(object):
         """
         packed = msg.pack()
         _LOGGER.debug("bulk_write(%d): %r", len(packed), packed)
-        self._transport.bulk_write(packed, adb_info.transport_timeout_s)
+        self._bulk_write_all(packed, adb_info)
 
         if msg.data:
             _LOGGER.debug("bulk_write(%d): %r", len(msg.data), msg.data)
-            self._transport.bulk_write(msg.data, adb_info.transport_timeout_s)
+            self._bulk_write_all(msg.data, adb_info)
+
+    def _bulk_write_all(self, data, adb_info):
+        """Write all of ``data`` to the device, resubmitting whatever the transport did not accept.
+
+        Parameters
+        ----------
+        data : bytes, bytearray
+            The data that will be sent
+        adb_info : _AdbTransactionInfo
+            Info and settings for this ADB transaction
+
+        """
+        while data:
+            num_written = self._transport.bulk_write(data, adb_info.transport_timeout_s)
+            if num_written is None or num_written >= len(data):
+                break
+
+            # A short write (e.g., a non-blocking socket whose send buffer is full): send the rest
+            data = data[num_written:]
 
 
 class AdbDevice(object):
